@@ -19,6 +19,7 @@ func init() {
 }
 
 func runC03(c *Ctx) {
+	defer checkConfigGetters(c, "C03.R6", "GetEnforcePKCE", "GetEnforcePKCEForPublicClients", "GetEnablePKCEPlainChallengeMethod")
 	c03R1(c)
 	c03R1b(c)
 	verifyOK := c03R2(c)
